@@ -418,12 +418,12 @@ func cmdPotsOne(args []string) {
 	o := &potsOut{w: newTraceWriter(*out)}
 	for _, raw := range readNDJSON(*in) {
 		var ln struct {
-			Scaled bool   `json:"scaled"`
-			Kind  string  `json:"kind"`
-			C     []int64 `json:"c"`
-			F     []int   `json:"f"`
-			S     []int   `json:"s"`
-			Order []int   `json:"order"`
+			Scaled bool    `json:"scaled"`
+			Kind   string  `json:"kind"`
+			C      []int64 `json:"c"`
+			F      []int   `json:"f"`
+			S      []int   `json:"s"`
+			Order  []int   `json:"order"`
 		}
 		if err := json.Unmarshal(raw, &ln); err != nil {
 			fatal("bad line: %v", err)
